@@ -63,7 +63,7 @@ MAXD = 2
 
 # model variant of the CFG construction: "0" = the code as it is, "1" = after
 # proposed_fixes/C21-jump_through_nested_finally.diff has been applied (flip the default then)
-FX = os.environ.get("C21_FX", "0")
+FX = os.environ.get("C21_FX", "1")
 
 
 class Gen:
